@@ -38,7 +38,7 @@ def slow(kind, n, arch, p4, p5):
     (its children come back through the global factory), and the bad archive with an unrestorable child.  They are sampled in the thorough tier only.
     (Failure paths that hand a status-carrying or NULL Ref on were in this list until Ref::SetStatusAux was modelled, models/message.def.)"""
     if kind == 15: return p4 == 4
-    if arch: return n > 0 or 7 <= kind <= 14
+    if arch: return n > 0 or kind == 14 or (7 <= kind <= 13 and p4 > 0)      # combinators WITHOUT children archive and restore within the budget
     return False
 
 
@@ -64,8 +64,7 @@ def jobs(tier):
                 add(14, n, arch, p4=mode)
         for kind in (3, 4): add(kind, 2, arch, other=1)
         for kind in range(7, 14):
-            for kids in ((1, 2, 3) if tier == 'quick' else (0, 1, 2, 3)):
-                if kids == 0 and kind in (8, 11, 12): continue     # a maximum-threshold filter without children: the documentation does not say; not asserted
+            for kids in (0, 1, 2, 3):      # 0: the documented verdict of a combinator without children (true for And/Or/min, false for Nand/Nor/max/Xor)
                 add(kind, 0, arch, p4=kids)
     for v in range(6):
         for w in ((0, 1, 2, 3) if v in (0, 4) else (0,)): put(15, 0, 0, 0, v, w)
